@@ -328,3 +328,448 @@ class kt_sub(_AddSub):
     qual = K_ + "__sub__"
     doc = "A - B: as A + B with the weights of B negated, so the denoted array is the difference."
     sign = -1
+
+
+# ======================================================================= in-place re-parameterisations
+#
+# The factor matrices are held in a HeapList (pyvc/values.py): a symbolic-length list of matrices with in-place
+# element writes and re-binding of elements.  Postconditions are component-wise: weights and factor entries of the
+# object after the call in terms of those before it (ghost functions w0 / fm0 fixed at entry).
+
+from pyvc.values import HeapList
+
+
+def sym_ktensor_mut(S, name="K"):
+    """A Kruskal tensor of symbolic order N >= 1 and rank R >= 1 whose factor list can be written in place."""
+    Nn = S.int(name + "_N", 1)
+    Rr = S.int(name + "_R", 1)
+    shape = S.vector(name + "_shape", Nn, "int", kind="tuple")
+    S.assume(S.forall(0, Nn, lambda q: shape.fn(q) >= 1, pats=lambda q: [shape.fn(q)]))
+    fm0 = z3.Function(T.fresh_name(name + "_fm0"), I_, I_, I_, z3.RealSort())
+    w0 = z3.Function(T.fresh_name(name + "_w0"), I_, z3.RealSort())
+    heap = HeapList(Nn, rows=lambda m: T.tz(shape.fn(m)), cols=lambda m: Rr,
+                    entry=lambda m, i, j: fm0(T.tz(m), T.tz(i), T.tz(j)))
+    rec = Rec("ktensor", dict(weights=Arr((Rr,), lambda j: w0(T.tz(j)), "real"), factor_matrices=heap))
+    rec.ghost = dict(N=Nn, R=Rr, shape=shape, fm=fm0, w=w0)
+    return rec
+
+
+def _havoc_kt(S, K, tag):
+    """Loop havoc: arbitrary weights and factor entries (shapes are kept: the loops under contract do not re-shape)."""
+    g = K.ghost
+    F = z3.Function(T.fresh_name(tag + "_fm"), I_, I_, I_, z3.RealSort())
+    W = z3.Function(T.fresh_name(tag + "_w"), I_, z3.RealSort())
+    heap = K.fields["factor_matrices"]
+    heap.entry = lambda m, i, j: F(T.tz(m), T.tz(i), T.tz(j))
+    K.fields["weights"] = Arr((g["R"],), lambda j: W(T.tz(j)), "real")
+    return K
+
+
+def _kt_state(K):
+    heap = K.fields["factor_matrices"]
+    w = N.snap(K.fields["weights"])
+    ent = heap.entry
+    return (lambda j: T.tz(T.as_real(w.fn(j)))), (lambda m, i, j: T.tz(T.as_real(ent(m, i, j)))), w
+
+
+@register
+class kt_redistribute(Contract):
+    qual = K_ + "redistribute"
+    props = ("C08",)
+    doc = ("K.redistribute(mode), 0 <= mode < N, in place: column r of factor `mode` is multiplied by weight r, every "
+           "weight becomes 1, every other factor entry is unchanged (so each rank-one term w_r * prod_m U_m[i_m, r] keeps "
+           "its value); returns the object itself.  Loop invariant over the components.")
+    inline = KT_INLINE
+
+    def setup(self, S, case):
+        K = sym_ktensor_mut(S)
+        mode = S.int("mode", 0)
+        S.assume(mode < K.ghost["N"])
+        return dict(__self__=K, mode=mode)
+
+    @staticmethod
+    def _inv(S, a, env, r):
+        K = env["self"]
+        g = K.ghost
+        mode, R, Nn = a["mode"], g["R"], g["N"]
+        w, ent, warr = _kt_state(K)
+        r = T.tz(r)
+        j, m, i = z3.Int("rd!j"), z3.Int("rd!m"), z3.Int("rd!i")
+        shp = lambda m_: T.tz(g["shape"].fn(m_))
+        return z3.And(
+            T.tz(T.eq(warr.shape[0], R)),
+            T.ForAll([j], z3.Implies(z3.And(0 <= j, j < R), w(j) == z3.If(j < r, z3.RealVal(1), g["w"](j))), [w(j)]),
+            T.ForAll([m, i, j], z3.Implies(z3.And(0 <= m, m < Nn, 0 <= i, i < shp(m), 0 <= j, j < R),
+                                           ent(m, i, j) == z3.If(z3.And(m == mode, j < r), g["fm"](m, i, j) * g["w"](j), g["fm"](m, i, j))), [ent(m, i, j)]))
+
+    loops = {0: dict(modifies=["self"],
+                     inv=lambda S, a, env, i: kt_redistribute._inv(S, a, env, i),
+                     havoc=lambda S, a, env, name: _havoc_kt(S, env["self"], "rd"))}
+
+    def ensures(self, S, a, ret):
+        K = a["__self__"]
+        g = K.ghost
+        yield "returns-the-object-itself", ret is K
+        yield "state-as-after-all-components", self._inv(S, a, dict(self=K), g["R"])
+
+
+@register
+class kt_arrange_perm(Contract):
+    qual = K_ + "arrange"
+    props = ("C08", "C19")
+    doc = ("K.arrange(permutation=p) for an index vector p of length R with entries in 0..R-1, in place: weight j becomes the "
+           "old weight p[j] and column j of every factor the old column p[j] (components re-ordered, each rank-one term kept); "
+           "a vector of another length raises; permutation together with weight_factor raises.  Loop invariant over the modes.  "
+           "(The sorting form arrange() / arrange(weight_factor=n) goes through normalize and is bounded only.)")
+    inline = KT_INLINE
+
+    def case_names(self):
+        return ["permutation", "permutation-and-weight-factor"]
+
+    def setup(self, S, case):
+        K = sym_ktensor_mut(S)
+        L = S.nat("L")
+        p = S.vector("p", L, "int")
+        R = K.ghost["R"]
+        S.assume(S.forall(0, L, lambda q: S.And(p.fn(q) >= 0, p.fn(q) < R), pats=lambda q: [p.fn(q)]))
+        a = dict(__self__=K, permutation=p, __L__=L)
+        if case == "permutation-and-weight-factor":
+            a["weight_factor"] = S.int("wf", 0)
+        return a
+
+    def raises_when(self, S, a):
+        yield "length-differs-from-the-number-of-components", a["__L__"] != a["__self__"].ghost["R"]
+        if "weight_factor" in a:
+            yield "permutation-and-weight-factor-together", True
+
+    @staticmethod
+    def _inv(S, a, env, k):
+        K = env["self"]
+        g = K.ghost
+        R, Nn, p = g["R"], g["N"], N.snap(a["permutation"])
+        w, ent, warr = _kt_state(K)
+        heap = K.fields["factor_matrices"]
+        k = T.tz(k)
+        j, m, i = z3.Int("ar!j"), z3.Int("ar!m"), z3.Int("ar!i")
+        shp = lambda m_: T.tz(g["shape"].fn(m_))
+        pj = T.tz(p.fn(j))
+        return z3.And(
+            T.tz(T.eq(warr.shape[0], R)),
+            T.ForAll([j], z3.Implies(z3.And(0 <= j, j < R), w(j) == g["w"](pj)), [w(j)]),
+            T.ForAll([m], z3.Implies(z3.And(0 <= m, m < Nn), z3.And(T.tz(heap.rows(m)) == shp(m), T.tz(heap.cols(m)) == R)), [shp(m)]),
+            T.ForAll([m, i, j], z3.Implies(z3.And(0 <= m, m < Nn, 0 <= i, i < shp(m), 0 <= j, j < R),
+                                           ent(m, i, j) == z3.If(m < k, g["fm"](m, i, pj), g["fm"](m, i, j))), [ent(m, i, j)]))
+
+    loops = {0: dict(modifies=["self"],
+                     inv=lambda S, a, env, i: kt_arrange_perm._inv(S, a, env, i),
+                     havoc=lambda S, a, env, name: _havoc_kt(S, env["self"], "ar"))}
+
+    def ensures(self, S, a, ret):
+        K = a["__self__"]
+        yield "returns-nothing", ret is None
+        yield "components-re-ordered", self._inv(S, a, dict(self=K), K.ghost["N"])
+
+
+@register
+class kt_extract(Contract):
+    qual = K_ + "extract"
+    props = ("C08", "C19")
+    doc = ("K.extract(idx) for an index vector idx of length 1..R (any entries): a new Kruskal tensor whose component j is "
+           "component idx[j] of K (weight and the column of every factor), K itself unchanged; an index outside 0..R-1, an "
+           "empty selection or more than R indices raise.  K.extract(k) with an int is the one-component case.  Two loop "
+           "invariants (validation of the indices; one factor per mode).")
+    inline = KT_INLINE
+
+    def case_names(self):
+        return ["index-vector", "single-int"]
+
+    def setup(self, S, case):
+        K = sym_ktensor(S, "K")
+        if case == "single-int":
+            k = S.int("k")
+            return dict(__self__=K, idx=k, __comp__=(1, lambda j: k))
+        L = S.nat("L")
+        idx = S.vector("idx", L, "int")
+        return dict(__self__=K, idx=idx, __comp__=(L, lambda j: T.tz(idx.fn(j))))
+
+    def raises_when(self, S, a):
+        R = a["__self__"].ghost["R"]
+        L, comp = a["__comp__"]
+        j = z3.Int("ex!rj")
+        yield "no-or-too-many-components", z3.Or(T.tz(L) == 0, T.tz(L) > R)
+        yield "component-index-out-of-range", T.Exists([j], z3.And(0 <= j, j < T.tz(L), z3.Or(comp(j) < 0, comp(j) >= R)))
+
+    @staticmethod
+    def _inv_validate(S, a, env, k):
+        R = a["__self__"].ghost["R"]
+        L, comp = a["__comp__"]
+        bad_list = env["invalid_entries"]
+        n_bad = len(bad_list) if isinstance(bad_list, list) else bad_list.shape[0]
+        k = T.tz(k)
+        j = z3.Int("ex!vj")
+        bad = lambda j_: z3.Or(comp(j_) < 0, comp(j_) >= R)
+        wit = z3.Int("ex!wit")
+        return z3.And(T.tz(n_bad) >= 0,
+                      z3.Implies(T.tz(n_bad) > 0, T.Exists([j], z3.And(0 <= j, j < k, bad(j)))),
+                      T.ForAll([j], z3.Implies(z3.And(0 <= j, j < k, bad(j)), T.tz(n_bad) > 0)))
+
+    @staticmethod
+    def _spec(a):
+        g = a["__self__"].ghost
+        L, comp = a["__comp__"]
+        return lambda m: (T.tz(g["shape"].fn(m)), T.tz(L), (lambda ii, jj: g["fm"](m, ii, comp(jj))))
+
+    loops = {0: dict(modifies=["invalid_entries"],
+                     inv=lambda S, a, env, i: kt_extract._inv_validate(S, a, env, i),
+                     havoc=lambda S, a, env, name: Arr.fresh("invalid", (S.nat("n_invalid"),), "int", kind="list")),
+             1: dict(modifies=["new_factor_matrices"],
+                     inv=lambda S, a, env, i: _list_inv(S, env["new_factor_matrices"], i, kt_extract._spec(a)),
+                     havoc=lambda S, a, env, name: _fresh_matrix_list(S, "sel"))}
+
+    def ensures(self, S, a, ret):
+        K = a["__self__"]
+        g = K.ghost
+        L, comp = a["__comp__"]
+        yield "returns-a-new-ktensor", _kt_result(ret) and ret is not K
+        if not _kt_result(ret):
+            return
+        w, fms = ret.fields["weights"], ret.fields["factor_matrices"]
+        r = z3.Int("ex!r")
+        yield "weights-selected", S.And(S.eq(w.shape[0], L), T.ForAll([r], z3.Implies(z3.And(0 <= r, r < T.tz(L)), T.tz(T.as_real(w.fn(r))) == T.tz(K.fields["weights"].fn(comp(r))))))
+        yield "factor-columns-selected", _list_inv(S, fms, g["N"], self._spec(a))
+
+
+def _colnorm(g, m, r, normtype):
+    """Norm (of type normtype) of column r of the ORIGINAL factor m: the specification-level value the code must use.
+    CN(m, r) is a name for NRM(column r of factor m) (defining axiom in _norm_facts)."""
+    return g["CN"](T.tz(m), T.tz(r))
+
+
+def _normalised(g, m, i, r, normtype):
+    """Entry (i, r) of factor m after its column r was scaled to unit norm (left as it is when the column is zero)."""
+    t = _colnorm(g, m, r, normtype)
+    return z3.If(t > 0, (1 / t) * g["fm"](m, i, r), g["fm"](m, i, r))
+
+
+def _norm_facts(S, g, normtype):
+    """CN(m, r) := NRM(column r of the original factor m), with the two norm facts (>= 0, = 0 only for the zero vector)
+    that the executor assumes for every np.linalg.norm call."""
+    g["CN"] = z3.Function(T.fresh_name("CN"), I_, I_, z3.RealSort())
+    m, r, i = z3.Int("nf!m"), z3.Int("nf!r"), z3.Int("nf!i")
+    t = g["CN"](m, r)
+    S.ctx.assume(T.ForAll([m, r], t == N.vector_norm_spec(lambda i_: g["fm"](m, T.tz(i_), r), T.tz(g["shape"].fn(m)), normtype), [t]))
+    ax1 = T.ForAll([m, r], t >= 0, [t])
+    ax2 = T.ForAll([m, r, i], z3.Implies(z3.And(t == 0, 0 <= i, i < T.tz(g["shape"].fn(m))), g["fm"](m, i, r) == 0), [[t, g["fm"](m, i, r)]])
+    S.ctx.assume(ax1, trusted="numpy:linalg.norm(vector) = uninterpreted function of the entries; >= 0; = 0 iff the vector is zero")
+    S.ctx.assume(ax2)
+    g["norm_axioms"] = (ax1, ax2)
+
+
+@register
+class kt_normalize(Contract):
+    qual = K_ + "normalize"
+    props = ("C08",)
+    doc = ("K.normalize(...) in place, for every order N, shape, rank R, weights of either sign or zero, zero columns, every "
+           "integer norm type p >= 1.  [mode=n]: every column r of factor n is divided by its p-norm t_r (left alone when it is "
+           "the zero column) and weight r is multiplied by t_r; other factors unchanged.  [default]: every column of every "
+           "factor is divided by its norm, weight r becomes |w_r * prod_m t_{m,r}| and the columns of the FIRST factor whose "
+           "scaled weight is negative change sign.  [weight_factor=n]: as default, then factor n is multiplied column-wise by "
+           "the weights and the weights become 1.  In the first two forms each rank-one term keeps its value, "
+           "w'_r * prod_m U'_m[i_m, r] = w_r * prod_m U_m[i_m, r] (products over the symbolic number of modes are recursive "
+           "specification functions; two inductions over the modes, base and step discharged as isolated nonlinear-arithmetic "
+           "obligations).  Every division is by a non-zero number (obligation).  The norm is an uninterpreted function of the "
+           "column entries with the facts >= 0 and = 0 iff zero; 'the scaled column has unit norm' needs homogeneity of the "
+           "norm, which is outside the solver.  Nested loop invariants (modes x components).  Not covered: weight_factor='all' "
+           "(fractional powers), sort=True (goes through arrange).")
+    inline = KT_INLINE
+
+    def case_names(self):
+        return ["single-mode", "all-modes", "absorb-into-one-factor"]
+
+    def setup(self, S, case):
+        K = sym_ktensor_mut(S)
+        S.ctx.div_checks = True       # 1.0 / tmp must be guarded: "divisor is not zero" is an obligation here
+        p = S.int("normtype", 1)
+        _norm_facts(S, K.ghost, p)
+        if case in ("all-modes", "absorb-into-one-factor"):
+            g = K.ghost
+            # P(k, r): product of the norms of column r over the first k factors (specification function)
+            g["P"] = z3.Function(T.fresh_name("P"), I_, I_, z3.RealSort())
+            k, r = z3.Int("pp!k"), z3.Int("pp!r")
+            pa = [T.ForAll([r], g["P"](0, r) == 1, [g["P"](0, r)]),
+                  T.ForAll([k, r], z3.Implies(k >= 0, g["P"](k + 1, r) == g["P"](k, r) * g["CN"](k, r)), [g["P"](k + 1, r)])]
+            for ax in pa:
+                S.ctx.assume(ax)
+            g["P_axiom_ids"] = tuple(ax.get_id() for ax in pa)
+            if case == "absorb-into-one-factor":
+                wf = S.int("weight_factor", 0)
+                S.assume(wf < g["N"])
+                return dict(__self__=K, normtype=p, weight_factor=wf, __all__=True)
+            return dict(__self__=K, normtype=p, __all__=True)
+        mode = S.int("mode", 0)
+        S.assume(mode < K.ghost["N"])
+        return dict(__self__=K, mode=mode, normtype=p)
+
+    @staticmethod
+    def _inv_all(S, a, env, k, r=None):
+        """k modes are done; with r: additionally columns < r of mode k."""
+        K = env["self"]
+        g = K.ghost
+        R, Nn, p, P = g["R"], g["N"], a["normtype"], g["P"]
+        w, ent, warr = _kt_state(K)
+        k = T.tz(k)
+        j, m, i = z3.Int("na!j"), z3.Int("na!m"), z3.Int("na!i")
+        shp = lambda m_: T.tz(g["shape"].fn(m_))
+        if r is None:
+            wexp = g["w"](j) * P(k, j)
+            done = m < k
+        else:
+            r = T.tz(r)
+            wexp = z3.If(j < r, g["w"](j) * P(k + 1, j), g["w"](j) * P(k, j))
+            done = z3.Or(m < k, z3.And(m == k, j < r))
+        return z3.And(
+            T.tz(T.eq(warr.shape[0], R)),
+            T.ForAll([j], z3.Implies(z3.And(0 <= j, j < R), w(j) == wexp), [w(j)]),
+            T.ForAll([m, i, j], z3.Implies(z3.And(0 <= m, m < Nn, 0 <= i, i < shp(m), 0 <= j, j < R),
+                                           ent(m, i, j) == z3.If(done, _normalised(g, m, i, j, p), g["fm"](m, i, j))), [ent(m, i, j)]))
+
+    @staticmethod
+    def _inv_mode(S, a, env, r):
+        K = env["self"]
+        g = K.ghost
+        mode, R, Nn, p = a["mode"], g["R"], g["N"], a["normtype"]
+        w, ent, warr = _kt_state(K)
+        r = T.tz(r)
+        j, m, i = z3.Int("nm!j"), z3.Int("nm!m"), z3.Int("nm!i")
+        shp = lambda m_: T.tz(g["shape"].fn(m_))
+        return z3.And(
+            T.tz(T.eq(warr.shape[0], R)),
+            T.ForAll([j], z3.Implies(z3.And(0 <= j, j < R), w(j) == z3.If(j < r, g["w"](j) * _colnorm(g, mode, j, p), g["w"](j))), [w(j)]),
+            T.ForAll([m, i, j], z3.Implies(z3.And(0 <= m, m < Nn, 0 <= i, i < shp(m), 0 <= j, j < R),
+                                           ent(m, i, j) == z3.If(z3.And(m == mode, j < r), _normalised(g, m, i, j, p), g["fm"](m, i, j))), [ent(m, i, j)]))
+
+    loops = {0: dict(modifies=["self"],
+                     inv=lambda S, a, env, i: kt_normalize._inv_mode(S, a, env, i),
+                     havoc=lambda S, a, env, name: _havoc_kt(S, env["self"], "nm")),
+             1: dict(modifies=["self"],
+                     inv=lambda S, a, env, i: kt_normalize._inv_all(S, a, env, i),
+                     havoc=lambda S, a, env, name: _havoc_kt(S, env["self"], "no")),
+             2: dict(modifies=["self"],
+                     inv=lambda S, a, env, i: kt_normalize._inv_all(S, a, env, env["mode_idx"], i),
+                     havoc=lambda S, a, env, name: _havoc_kt(S, env["self"], "ni"))}
+
+    def ensures(self, S, a, ret):
+        K = a["__self__"]
+        g = K.ghost
+        yield "returns-the-object-itself", ret is K
+        if a.get("__all__"):
+            yield from self._ensures_all(S, a, K)
+            return
+        yield "columns-scaled-by-their-norm-weights-multiplied", self._inv_mode(S, a, dict(self=K), g["R"])
+        # each rank-one term keeps its value.  Stated for an arbitrary entry (i0, j0) (fresh constants, constrained to the
+        # index range only, so this is the universally quantified statement); the four facts about that entry are
+        # instances of the clauses above, and the arithmetic core is then proved from those four alone (nonlinear real
+        # arithmetic without the quantified context)
+        w, ent, warr = _kt_state(K)
+        i0, j0 = z3.Int("nm!i0"), z3.Int("nm!j0")
+        mode = a["mode"]
+        rng = z3.And(0 <= i0, i0 < T.tz(g["shape"].fn(mode)), 0 <= j0, j0 < g["R"])
+        t0, f0 = _colnorm(g, mode, j0, a["normtype"]), g["fm"](mode, i0, j0)
+        L = [z3.Implies(rng, w(j0) == g["w"](j0) * t0),
+             z3.Implies(rng, ent(mode, i0, j0) == z3.If(t0 > 0, (1 / t0) * f0, f0)),
+             z3.Implies(rng, t0 >= 0),
+             z3.Implies(rng, z3.Implies(t0 == 0, f0 == 0))]
+        for k, h in enumerate(L):
+            if k >= 2:
+                # instances of the two norm facts: proved from that fact alone
+                yield f"lemma:facts-about-an-arbitrary-entry.{k}", h, dict(isolated=[g["norm_axioms"][k - 2]], lemma=True)
+            else:
+                yield f"lemma:facts-about-an-arbitrary-entry.{k}", h, "lemma"
+        yield "rank-one-terms-keep-their-value", z3.Implies(rng, w(j0) * ent(mode, i0, j0) == g["w"](j0) * f0), dict(isolated=L)
+
+
+def _kt_normalize_ensures_all(self, S, a, K):
+    g = K.ghost
+    R, Nn, p, P = g["R"], g["N"], a["normtype"], g["P"]
+    w, ent, warr = _kt_state(K)
+    j, m, i = z3.Int("ne!j"), z3.Int("ne!m"), z3.Int("ne!i")
+    shp = lambda m_: T.tz(g["shape"].fn(m_))
+    wn = lambda j_: g["w"](j_) * P(Nn, j_)        # weight after the normalisation loops, before the sign step
+    gs, cs = S.body_ghosts.get("select"), S.body_ghosts.get("colscatter")
+    if gs and cs:
+        # witnesses: a component with a negative scaled weight is selected by np.where (at rank rk(j)), hence hit by the
+        # column assignment; and every column that is hit was selected
+        (Ksel, sel, rk), (has, last) = gs[0], cs[-1]
+        yield "lemma:negative-weights-are-selected", T.ForAll(
+            [j], z3.Implies(z3.And(0 <= j, j < R, wn(j) < 0), z3.And(0 <= rk(j), rk(j) < Ksel, sel(rk(j)) == j)), [rk(j)]), "lemma"
+        yield "lemma:selected-columns-are-flipped", T.ForAll([j], z3.Implies(z3.And(0 <= j, j < R, wn(j) < 0), has(j)), [has(j)]), "lemma"
+        yield "lemma:only-selected-columns-are-flipped", T.ForAll([j], z3.Implies(z3.And(0 <= j, j < R, has(j)), wn(j) < 0), [has(j)]), "lemma"
+    wabs = lambda j_: z3.If(wn(j_) < 0, -wn(j_), wn(j_))
+    if "weight_factor" in a:
+        wf = a["weight_factor"]
+        signed = lambda m_, i_, j_: z3.If(z3.And(m_ == 0, wn(j_) < 0), -_normalised(g, m_, i_, j_, p), _normalised(g, m_, i_, j_, p))
+        yield "weights-are-one", z3.And(T.tz(T.eq(warr.shape[0], R)), T.ForAll([j], z3.Implies(z3.And(0 <= j, j < R), w(j) == 1), [w(j)]))
+        yield "other-factors-normalised", T.ForAll(
+            [m, i, j], z3.Implies(z3.And(0 <= m, m < Nn, m != wf, 0 <= i, i < shp(m), 0 <= j, j < R), ent(m, i, j) == signed(m, i, j)))
+        yield "chosen-factor-absorbs-the-weights", T.ForAll(
+            [i, j], z3.Implies(z3.And(0 <= i, i < shp(wf), 0 <= j, j < R), ent(wf, i, j) == signed(wf, i, j) * wabs(j)))
+        return
+    yield "weights-are-the-absolute-scaled-weights", z3.And(
+        T.tz(T.eq(warr.shape[0], R)),
+        T.ForAll([j], z3.Implies(z3.And(0 <= j, j < R), w(j) == wabs(j)), [w(j)]))
+    cols_clause = T.ForAll(
+        [m, i, j], z3.Implies(z3.And(0 <= m, m < Nn, 0 <= i, i < shp(m), 0 <= j, j < R),
+                              ent(m, i, j) == z3.If(z3.And(m == 0, wn(j) < 0), -_normalised(g, m, i, j, p), _normalised(g, m, i, j, p))), [ent(m, i, j)])
+    yield "columns-normalised-first-factor-carries-the-sign", cols_clause, "lemma"
+
+    # ---- every rank-one term keeps its value: w'_r * prod_m U'_m[i_m, r] = w_r * prod_m U_m[i_m, r] for an arbitrary
+    # component r0 and multi-index ix (fresh symbols constrained to their ranges only).  The products over the symbolic
+    # number of modes are specification functions defined by recursion (T0: original entries, T1: normalised entries, TF:
+    # entries of the object after the call); the two facts about them are proved by induction over the modes -- base and
+    # step are obligations (each from the handful of definitions it needs: nonlinear real arithmetic), the induction
+    # principle itself is the trusted step.
+    RS = z3.RealSort()
+    r0 = z3.Int("nt!r0")
+    ix = z3.Function(T.fresh_name("ix"), I_, I_)
+    T0, T1, TF = (z3.Function(T.fresh_name(nm), I_, RS) for nm in ("T0", "T1", "TF"))
+    k, k0 = z3.Int("nt!k"), z3.Int("nt!k0")
+    CN = g["CN"]
+    u0 = lambda m_: g["fm"](m_, ix(m_), r0)
+    un = lambda m_: z3.If(CN(m_, r0) > 0, (1 / CN(m_, r0)) * u0(m_), u0(m_))
+    uf = lambda m_: ent(m_, ix(m_), r0)
+    rng = z3.And(0 <= r0, r0 < R)
+    H_ix = T.ForAll([m], z3.Implies(z3.And(0 <= m, m < Nn), z3.And(0 <= ix(m), ix(m) < shp(m))), [ix(m)])
+    defs = [T0(0) == 1, T.ForAll([k], z3.Implies(k >= 0, T0(k + 1) == T0(k) * u0(k)), [T0(k + 1)]),
+            T1(0) == 1, T.ForAll([k], z3.Implies(k >= 0, T1(k + 1) == T1(k) * un(k)), [T1(k + 1)]),
+            TF(0) == 1, T.ForAll([k], z3.Implies(k >= 0, TF(k + 1) == TF(k) * uf(k)), [TF(k + 1)])]
+    for d in defs + [H_ix, rng]:
+        S.ctx.assume(d)       # definitions of the specification products; ix / r0 are arbitrary in range
+    ax1, ax2 = g["norm_axioms"]
+    Pdefs = [a_ for a_ in S.ctx.assumptions if a_.get_id() in g.get("P_axiom_ids", ())]
+    s_ = z3.If(wn(r0) < 0, z3.RealVal(-1), z3.RealVal(1))
+    # induction 1:  P(k, r0) * T1(k) = T0(k)   for 0 <= k <= N
+    L1 = lambda kk: P(kk, r0) * T1(kk) == T0(kk)
+    yield "induction-1:base", L1(0), dict(isolated=[defs[0], defs[2]] + Pdefs)
+    yield "induction-1:step", z3.Implies(z3.And(0 <= k0, k0 < Nn, L1(k0)), L1(k0 + 1)), dict(isolated=[defs[1], defs[3], H_ix, rng, ax1, ax2] + Pdefs)
+    ind1 = T.ForAll([k], z3.Implies(z3.And(0 <= k, k <= Nn), L1(k)), [T0(k)])
+    S.ctx.assume(ind1, trusted="induction over the modes (base and step are discharged obligations; the induction principle is assumed)")
+    # induction 2:  TF(k) = s * T1(k)   for 1 <= k <= N   (only the first factor carries the sign)
+    L2 = lambda kk: TF(kk) == s_ * T1(kk)
+    inst0 = z3.Implies(z3.And(0 <= k0, k0 < Nn), uf(k0) == z3.If(z3.And(k0 == 0, wn(r0) < 0), -un(k0), un(k0)))
+    yield "lemma:final-entry-of-an-arbitrary-mode", inst0, "lemma"
+    inst00 = uf(0) == z3.If(wn(r0) < 0, -un(0), un(0))
+    yield "lemma:final-entry-of-the-first-mode", inst00, "lemma"
+    yield "induction-2:base", L2(1), dict(isolated=[defs[2], defs[3], defs[4], defs[5], inst00])
+    yield "induction-2:step", z3.Implies(z3.And(1 <= k0, k0 < Nn, L2(k0)), L2(k0 + 1)), dict(isolated=[defs[3], defs[5], inst0])
+    ind2 = T.ForAll([k], z3.Implies(z3.And(1 <= k, k <= Nn), L2(k)), [TF(k)])
+    S.ctx.assume(ind2)
+    # conclusion
+    wfin = w(r0) == z3.If(wn(r0) < 0, -wn(r0), wn(r0))
+    yield "lemma:final-weight-of-an-arbitrary-component", wfin, "lemma"
+    atN = [L1(Nn), L2(Nn)]
+    yield "lemma:induction-1-at-N", atN[0], "lemma"
+    yield "lemma:induction-2-at-N", atN[1], "lemma"
+    yield "rank-one-terms-keep-their-value", w(r0) * TF(Nn) == g["w"](r0) * T0(Nn), dict(isolated=[wfin] + atN)
+
+
+kt_normalize._ensures_all = _kt_normalize_ensures_all
